@@ -252,7 +252,7 @@ def run_case(item, bound):
             from mpservice.multiprocessing import Process
             p = Process(target=log_target, args=({k: sc[k] for k in ('n', 'bytes', 'lo_every', 'kind') if k in sc}
                                                  | {'mid_pause': sc.get('mid_pause', 0), 'tail_pause': sc.get('tail_pause', 0)},),
-                        name=f'verif-log-{item["id"]}')
+                        name=f'verif-log-{item["id"]}', daemon=bool(sc.get('daemon')))
             _KEEP.append(p)
             p.start()
             procs.append(p)
@@ -369,10 +369,10 @@ SHAPES = [(0, 0), (1, 50), (5, 100), (40, 1500), (50, 2000), (300, 100), (20, 80
 KINDS = ('return', 'raise', 'exit0', 'exitN')
 
 
-def process_scenario(shape, slow, kind, lo_every=0, mid_pause=0, tail_pause=0, lvl='root'):
+def process_scenario(shape, slow, kind, lo_every=0, mid_pause=0, tail_pause=0, lvl='root', daemon=False):
     n, nb = shape
     return {'flavour': 'process', 'n': n, 'bytes': nb, 'slow': slow, 'kind': kind, 'lo_every': lo_every,
-            'mid_pause': mid_pause, 'tail_pause': tail_pause, 'lvl': lvl}
+            'mid_pause': mid_pause, 'tail_pause': tail_pause, 'lvl': lvl, 'daemon': daemon}
 
 
 def hosted_scenario(flavour, calls, per_call, at_stop, nb, slow, lo_every=0):
@@ -401,6 +401,11 @@ def gen_scenarios(rnd, thorough):
         for lvl in ('named_debug', 'named_error'):
             for lo in ((0, 3) if thorough else ((0, 3)[j % 2],)):
                 out.append(process_scenario(shape, False, KINDS[(j + len(lvl)) % 4], lo, 0, 0, lvl=lvl))
+    # daemonic children (Process(daemon=True); the workers of a multiprocessing Pool are daemonic too) ending right after
+    # their last record
+    for j, shape in enumerate([(5, 100), (50, 2000), (300, 100), (2500, 30)] + ([(40, 1500), (20, 8000)] if thorough else [])):
+        for kind in (KINDS if thorough else (KINDS[j % 4], KINDS[(j + 2) % 4])):
+            out.append(process_scenario(shape, j % 2 == 0, kind, 0, 0, 0, daemon=True))
     hosted = [(3, 2, 1, 100), (10, 5, 10, 2000), (30, 10, 0, 200), (4, 3, 8, 8000), (1, 0, 60, 1500)]
     for j, (calls, per, at_stop, nb) in enumerate(hosted if thorough else hosted[:3]):
         for slow in ((False, True) if thorough else (j % 2 == 0,)):
